@@ -120,4 +120,46 @@ theorem kruskal_spanning (es : List (E α)) : ∀ e, e ∈ es → Conn (kruskal 
       exact h1.mono (foldl_tree_mono t _)
     · exact ih _ (agree_step s e0 hs) e he
 
+/-- a forest, stated along the order of acceptance: every edge joins two vertices that the edges
+accepted before it did not connect (so no edge closes a cycle) -/
+def Forest (T : List (E α)) : Prop := ∀ pre e post, T = pre ++ e :: post → ¬ Conn pre e.1 e.2.1
+
+theorem split_snoc {β : Type} (pre post l : List β) (x e : β) (h : pre ++ x :: post = l ++ [e]) :
+    (post = [] ∧ pre = l ∧ x = e) ∨ (∃ post', post = post' ++ [e] ∧ l = pre ++ x :: post') := by
+  rcases List.eq_nil_or_concat post with rfl | ⟨post', z, rfl⟩
+  · left
+    have h' : pre ++ [x] = l ++ [e] := h
+    have := List.append_inj' h' rfl
+    exact ⟨rfl, this.1, by simpa using this.2⟩
+  · right
+    have h' : (pre ++ x :: post') ++ [z] = l ++ [e] := by simpa [List.concat_eq_append] using h
+    have := List.append_inj' h' rfl
+    refine ⟨post', ?_, this.1.symm⟩
+    have hz : z = e := by simpa using this.2
+    rw [List.concat_eq_append, hz]
+
+theorem forest_step (s : St α) (e : E α) (ha : Agree s) (hf : Forest s.tree) : Forest (kstep s e).tree := by
+  unfold kstep
+  by_cases hc : s.cls e.1 = s.cls e.2.1
+  · simp only [hc, if_true]; exact hf
+  · simp only [hc, if_false]
+    intro pre x post hsplit
+    rcases split_snoc pre post s.tree x e hsplit.symm with ⟨_, hpre, hx⟩ | ⟨post', _, hl⟩
+    · subst hpre; subst hx
+      intro hconn; exact hc ((ha x.1 x.2.1).mpr hconn)
+    · exact hf pre x post' hl
+
+/-- **the accepted edges form a forest** -/
+theorem kruskal_forest (es : List (E α)) : Forest (kruskal es).tree := by
+  unfold kruskal
+  suffices H : ∀ (es : List (E α)) (s : St α), Agree s → Forest s.tree → Forest (es.foldl kstep s).tree from
+    H es _ agree_init (by intro pre e post h; cases pre <;> cases h)
+  intro es
+  induction es with
+  | nil => intro s _ hf; exact hf
+  | cons e t ih =>
+    intro s ha hf
+    simp only [List.foldl_cons]
+    exact ih _ (agree_step s e ha) (forest_step s e ha hf)
+
 end Fs.Kruskal
